@@ -38,6 +38,14 @@ def bounds(tier):
             'script_points': NSCRIPT}
 
 
+def prefork():
+    from mc import tables
+    for d in (2, 3, 4, 5, 6):
+        A.korobov_generator(NSCRIPT, d)
+        for n in (31, 301, 1001):
+            A.korobov_generator(n, d)
+
+
 def cases(tier, seed):
     out = []
     for cfg in tables.CONFIGS:
